@@ -10,6 +10,8 @@ same content reaches the parser in another, equally legitimate way:
   by-path       the text written to a file and read with Chart.from_filepath      (C06)
   by-path-bom   the same with a UTF-8 byte-order mark                             (C06)
   by-path-str   the same, the path handed over as a plain str (README)           (C06)
+  debug-logging DEBUG logging switched on (root and 'chartparse' loggers) while parsing (C17: no configuration of
+                the process is an input of the parse)
   after-decoy   a different, valid chart (other resolution, tempo map, tracks, metadata) parsed immediately
                 before in the same process                                        (C17)
   after-failed  a chart that fails to parse immediately before                    (C17)
@@ -53,11 +55,12 @@ WHAT = {
     "by-path": "read with Chart.from_filepath",
     "by-path-bom": "read with Chart.from_filepath from a file with a byte-order mark",
     "by-path-str": "read with Chart.from_filepath, the path given as a str (the README's spelling)",
+    "debug-logging": "DEBUG logging switched on for the root logger and for 'chartparse' during the parse",
     "after-decoy": "a different valid chart parsed immediately before in the same process",
     "after-failed": "a chart that fails to parse parsed immediately before in the same process",
     "twice": "the same text parsed immediately before in the same process",
 }
-NAMES = ("crlf", "unknown-first", "unknown-last", "by-path", "by-path-bom", "by-path-str", "after-decoy", "after-failed", "twice")
+NAMES = ("crlf", "unknown-first", "unknown-last", "by-path", "by-path-bom", "by-path-str", "debug-logging", "after-decoy", "after-failed", "twice")
 
 
 def enable(stride):
@@ -79,6 +82,8 @@ def transformed(name, text):
         return (text, "path-bom", None)
     if name == "by-path-str":
         return (text, "path-str", None)
+    if name == "debug-logging":
+        return (text, "file-debug", None)
     if name == "after-decoy":
         return (text, "file", DECOY)
     if name == "after-failed":
@@ -92,6 +97,18 @@ def parse_mode(text, mode, kw):
     Chart = impl.P.Chart
     if mode == "file":
         return Chart.from_file(io.StringIO(text), **kw)
+    if mode == "file-debug":
+        import logging
+
+        lg = [logging.getLogger(), logging.getLogger("chartparse")]
+        old = [x.level for x in lg]
+        for x in lg:
+            x.setLevel(logging.DEBUG)
+        try:
+            return Chart.from_file(io.StringIO(text), **kw)
+        finally:
+            for x, lv in zip(lg, old):
+                x.setLevel(lv)
     fd, path = tempfile.mkstemp(suffix=".chart")
     try:
         with os.fdopen(fd, "wb") as f:
@@ -129,8 +146,16 @@ if warm is not None:
     except Exception:
         pass
 try:
-    if mode == "file":
-        c = Chart.from_file(io.StringIO(text), **kwargs)
+    if mode in ("file", "file-debug"):
+        import logging
+        lg = [logging.getLogger(), logging.getLogger("chartparse")]
+        old = [x.level for x in lg]
+        if mode == "file-debug":
+            [x.setLevel(logging.DEBUG) for x in lg]
+        try:
+            c = Chart.from_file(io.StringIO(text), **kwargs)
+        finally:
+            [x.setLevel(lv) for x, lv in zip(lg, old)]
     else:
         from pathlib import Path
         fd, path = tempfile.mkstemp(suffix=".chart")
